@@ -26,15 +26,56 @@ def install() -> None:
             if not _BROKEN:
                 _BROKEN.append(f"Parser.{attr[8:]} is gone")
             return
-    if getattr(pb.Parser._Parser__change_from_import, "_c12_xref", False):
-        return
-    orig_change = pb.Parser._Parser__change_from_import
-    orig_rename = pb.Parser._Parser__change_imported_model_name
+    if not hasattr(pb.Parser, "_c12_xref_calls"):
+        pb.Parser._c12_xref_calls = []  # kept on the class: the wrappers outlive a re-import of this module
+
+    def holders(attr):
+        """every class below Parser (Parser included) that carries the method in its OWN dict: a recorder installed
+        earlier may sit on a subclass, where it hides whatever is put on Parser itself"""
+        seen, todo, out = set(), [pb.Parser], []
+        while todo:
+            c = todo.pop()
+            if c in seen:
+                continue
+            seen.add(c)
+            todo += c.__subclasses__()
+            if attr in c.__dict__ and not getattr(c.__dict__[attr], "_c12_xref", False):
+                out.append(c)
+        return out
+
+    for holder in holders("_Parser__change_from_import"):
+        _wrap_change(pb, holder, bind)
+    for holder in holders("_Parser__change_imported_model_name"):
+        _wrap_rename(pb, holder, bind)
+
+
+def bind(fn, names, self, args, kwargs):
+    """arguments by name; a wrapper below us that takes (*args, **kwargs) is read by position"""
+    b = inspect.signature(fn).bind(self, *args, **kwargs).arguments
+    if all(k in b for k in names):
+        return b
+    out = dict(zip(names, args))
+    out.update({k: v for k, v in kwargs.items() if k in names})
+    if not all(k in out for k in names):
+        raise TypeError(f"cannot tell the arguments {names} of {getattr(fn, '__name__', fn)}")
+    return out
+
+
+def _keep_signature(w, o):
+    try:  # a recorder installed on top of this one reads the arguments by name
+        if "models" in inspect.signature(o).parameters:
+            w.__signature__ = inspect.signature(o)
+    except (TypeError, ValueError):
+        pass
+
+
+def _wrap_change(pb, holder, bind):
+    orig_change = holder.__dict__["_Parser__change_from_import"]
 
     def change(self, *args, **kwargs):
         rec = None
         try:
-            b = inspect.signature(orig_change).bind(self, *args, **kwargs).arguments
+            b = bind(orig_change, ("models", "imports", "scoped_model_resolver", "init"), self, args, kwargs)
             models, imports, res, init = b["models"], b["imports"], b["scoped_model_resolver"], b["init"]
             uses = []
             for m in models:
@@ -66,12 +107,21 @@ def install() -> None:
                 except AttributeError:
                     pass
                 rec["written"] = [(dt.alias, dt.alias or dt.reference.short_name) for dt, _, _, _ in uses]
-                _CALLS.append(rec)
+                pb.Parser._c12_xref_calls.append(rec)
+
+    change._c12_xref = True
+    change._c12_recorder = getattr(orig_change, "_c12_recorder", False)  # c12's own recorder is below us already: it need not wrap again
+    _keep_signature(change, orig_change)
+    setattr(holder, "_Parser__change_from_import", change)
+
+
+def _wrap_rename(pb, holder, bind):
+    orig_rename = holder.__dict__["_Parser__change_imported_model_name"]
 
     def rename(self, *args, **kwargs):
         rec = None
         try:
-            b = inspect.signature(orig_rename).bind(self, *args, **kwargs).arguments
+            b = bind(orig_rename, ("models", "imports", "scoped_model_resolver"), self, args, kwargs)
             models, imports, res = b["models"], b["imports"], b["scoped_model_resolver"]
             imported = sorted({imports.alias[f][i] if i in imports.alias[f] and i != imports.alias[f][i] else i for f, im in imports.items() for i in im})
             rec = {"kind": "rename", "imported": imported, "taken": sorted({r.name for r in res.references.values()}), "excl": sorted(res.exclude_names),
@@ -86,11 +136,11 @@ def install() -> None:
         finally:
             if rec is not None:
                 rec["after"] = [m.reference.name for m in b["models"]]
-                _CALLS.append(rec)
+                pb.Parser._c12_xref_calls.append(rec)
 
-    change._c12_xref = True
-    pb.Parser._Parser__change_from_import = change
-    pb.Parser._Parser__change_imported_model_name = rename
+    rename._c12_xref = True
+    _keep_signature(rename, orig_rename)
+    setattr(holder, "_Parser__change_imported_model_name", rename)
 
 
 def P(path) -> str:
@@ -208,9 +258,11 @@ def observe(case: dict):
     from . import c12
 
     install()
-    _CALLS.clear()
+    from datamodel_code_generator.parser import base as pb
+
+    pb.Parser._c12_xref_calls.clear()
     res = c12.observe(case)
-    return res, list(_CALLS)
+    return res, list(pb.Parser._c12_xref_calls)
 
 
 def campaign(ck, n: int) -> None:
